@@ -125,8 +125,7 @@ void h_clean_up_secure(void) { GHOST_RESET();
 }
 void h_s_append_dynamic(void) {
     struct aws_byte_buf *to; const struct aws_byte_cursor *from; bool clear;
-    GHOSTS(); g_zero_on = clear; g_rz = nondet_size_t(); g_rsize = nondet_size_t();
-    size_t old_cap_probe;
+    GHOSTS(); g_zero_on = clear; g_rz = nondet_size_t(); g_rsize = nondet_size_t(); g_aoff = nondet_size_t();
     int r = s_aws_byte_buf_append_dynamic(to, from, clear);
     
 #ifdef VERIF_APPEND_DYNAMIC_HUGE
